@@ -1,0 +1,81 @@
+//go:build verif
+
+package ratelimiter
+
+// Machine-checked contracts (comment-only; build tag verif). Checked by /verif/bin/hv.
+
+// Ghost state for the sliding-window bound. winStart is an arbitrary, never-assigned window start: what is
+// proved holds for every window. adm counts admissions at clock readings >= winStart, seen records that some
+// Allow call at a reading >= winStart happened. owner links a bucket to the limiter that created it.
+//@ ghost var winStart Int
+//@ ghost field bucket.adm Int
+//@ ghost field bucket.seen Bool
+//@ ghost field bucket.owner Int
+//@ ghost field bucket.pre Int
+
+//@ pred rlCfg(rl *TokenBucketRateLimiter) := rl.maxTokens >= 1 && rl.maxTokens <= 2147483648 && rl.refillRate >= 1
+//@ pred ownerOf(b *bucket) *TokenBucketRateLimiter := asptr(b.owner, *TokenBucketRateLimiter)
+//@ pred bucketInv(rl *TokenBucketRateLimiter, b *bucket) := 0 <= b.tokens && b.tokens <= rl.maxTokens && b.lastRefill >= 0
+//@ pred window(rl *TokenBucketRateLimiter, b *bucket) := b.adm >= 0 && (!b.seen ==> b.adm == 0)
+//@      && (b.lastRefill >= winStart ==> b.adm + b.tokens <= rl.maxTokens + (b.lastRefill - winStart) / rl.refillRate + 1)
+//@      && (b.lastRefill <  winStart ==> b.adm + b.tokens <= rl.maxTokens && (b.seen ==> winStart - b.lastRefill < rl.refillRate))
+
+// Every bucket stored in the limiter's map is a non-nil *bucket created by this limiter.
+//@ pred mapInv(rl *TokenBucketRateLimiter) := forall k string :: {rl.buckets.has[k]} rl.buckets.has[k] ==>
+//@        rl.buckets.dyn[k] == typetag(*bucket) && rl.buckets.val[k] != 0 && allocated(rl.buckets.val[k])
+//@        && asptr(rl.buckets.val[k], *bucket).owner == ptr(rl)
+
+// The map is shared between request goroutines without an outer lock. Under every interleaving: the map
+// invariant holds between operations, and no operation replaces the bucket a client already has (two
+// goroutines must never end up spending from different buckets for the same address).
+//@ atomic TokenBucketRateLimiter.buckets rl
+//@   state has, val, dyn
+//@   inv mapInv(rl)
+//@   guarantee no_replace: forall k string :: {rl.buckets.val[k]} old(rl.buckets.has[k]) && rl.buckets.has[k] ==> rl.buckets.val[k] == old(rl.buckets.val[k])
+
+// Holds whenever a bucket's lock is free, under every interleaving: token range, and the sliding-window
+// bound for the arbitrary window start winStart.
+//@ monitor bucket.mutex b
+//@   guards tokens, lastRefill, adm, seen
+//@   inv range: rlCfg(ownerOf(b)) ==> bucketInv(ownerOf(b), b)
+//@   inv clock: b.lastRefill <= now()
+//@   inv window: rlCfg(ownerOf(b)) ==> window(ownerOf(b), b)
+
+//@ func (*TokenBucketRateLimiter).refillTokens
+//@   props C09
+//@   requires b != nil && wlocked(b.mutex) && rlCfg(rl) && bucketInv(rl, b)
+//@   requires b.lastRefill <= now()
+//@   ensures inv: bucketInv(rl, b)
+//@   ensures refill: (now() - old(b.lastRefill)) / rl.refillRate > 0
+//@             ? b.tokens == min(rl.maxTokens, old(b.tokens) + (now() - old(b.lastRefill)) / rl.refillRate) && b.lastRefill == now()
+//@             : b.tokens == old(b.tokens) && b.lastRefill == old(b.lastRefill)
+//@   ensures clock: b.lastRefill <= now() && now() >= old(now())
+//@   modifies b.tokens, b.lastRefill
+
+//@ func (*TokenBucketRateLimiter).getOrCreateBucket
+//@   props C09
+//@   mode seq, mon
+//@   requires rlCfg(rl) && mapInv(rl)
+//@   ghost before LoadOrStore :: newBucket.owner := ptr(rl)
+//@   ghost before LoadOrStore :: newBucket.adm := 0
+//@   ghost before LoadOrStore :: newBucket.seen := false
+//@   ensures owned: result != nil && result.owner == ptr(rl) && rl.buckets.has[clientIP] && rl.buckets.val[clientIP] == ptr(result)
+//@   ensures map: mapInv(rl)
+//@   ensures new_client_full: fresh(result) ==> result.tokens == rl.maxTokens && unlocked(result.mutex) && lockinv(result)
+//@   ensures seq: existing_untouched: !fresh(result) ==> result.tokens == old(result.tokens) && result.lastRefill == old(result.lastRefill)
+//@   ensures seq: isolation: forall k string :: {rl.buckets.has[k]} k != clientIP ==> rl.buckets.has[k] == old(rl.buckets.has[k]) && rl.buckets.val[k] == old(rl.buckets.val[k])
+//@   modifies rl.buckets.has, rl.buckets.val, rl.buckets.dyn
+
+//@ func (*TokenBucketRateLimiter).Allow
+//@   props C09
+//@   mode seq, mon
+//@   requires rlCfg(rl) && mapInv(rl)
+//@   requires nolocks: forall x *bucket :: {x.mutex} unlocked(x.mutex)
+//@   ghost after refillTokens :: b.pre := b.tokens
+//@   ghost release mutex if now() >= winStart :: b.seen := true
+//@   ghost release mutex if now() >= winStart && b.tokens < b.pre :: b.adm := b.adm + 1
+//@   ensures map: mapInv(rl)
+//@   ensures seq: spend: result <==> asptr(rl.buckets.val[clientIP], *bucket).tokens == asptr(rl.buckets.val[clientIP], *bucket).pre - 1
+//@   ensures seq: denied_keeps: !result ==> asptr(rl.buckets.val[clientIP], *bucket).tokens == 0
+//@   ensures seq: isolation_map: forall k string :: {rl.buckets.has[k]} k != clientIP ==> rl.buckets.has[k] == old(rl.buckets.has[k]) && rl.buckets.val[k] == old(rl.buckets.val[k])
+//@   modifies rl.buckets.has, rl.buckets.val, rl.buckets.dyn, bucket.tokens, bucket.lastRefill, bucket.adm, bucket.seen, bucket.pre
